@@ -641,6 +641,76 @@ func c16(x *mon.Ctx) {
 		}
 		x.Require("no-write/kept-parsed-message", n, 0, n)
 	}
+	// EVERY byte string an options value can hold, found by reflection over validate.Options (so that a member added later is
+	// covered the day it appears): set alone, in a slice of a larger dirty buffer, with lengths around the field sizes. Whatever
+	// the member means and whatever the verdict is, validation writes to none of it — contents or spare capacity.
+	{
+		rr := x.Rand("c16-any-option")
+		wq := world.Honest(rr, world.HonestOpts{Shape: world.QuoteShape{AuthLen: 32}})
+		raw := wq.Q.Bytes()
+		a, err := abi.QuoteToProto(raw)
+		if err != nil {
+			x.Broken("any-option: honest quote does not parse: " + err.Error())
+		} else {
+			m := a.(*pb.QuoteV4)
+			var paths [][]int
+			var names []string
+			var walk func(t reflect.Type, idx []int, name string)
+			walk = func(t reflect.Type, idx []int, name string) {
+				for i := 0; i < t.NumField(); i++ {
+					f := t.Field(i)
+					if f.PkgPath != "" {
+						continue
+					}
+					ni := append(append([]int{}, idx...), i)
+					switch {
+					case f.Type.Kind() == reflect.Struct:
+						walk(f.Type, ni, name+f.Name+".")
+					case f.Type.Kind() == reflect.Slice && (f.Type.Elem().Kind() == reflect.Uint8 || (f.Type.Elem().Kind() == reflect.Slice && f.Type.Elem().Elem().Kind() == reflect.Uint8)):
+						paths = append(paths, ni)
+						names = append(names, name+f.Name)
+					}
+				}
+			}
+			walk(reflect.TypeOf(validate.Options{}), nil, "")
+			n := 0
+			for pi, path := range paths {
+				for _, l := range []int{1, 2, 8, 15, 16, 17, 31, 32, 47, 48, 49, 63, 64, 65} {
+					for _, content := range []string{"pattern", "quote-prefix"} {
+						buf := make([]byte, 256)
+						for i := range buf {
+							buf[i] = byte(0x80 + i%97)
+						}
+						if content == "quote-prefix" {
+							copy(buf[:l], raw[48+136:]) // MR_TD onwards: values that match some comparison's beginning
+						}
+						o := &validate.Options{}
+						f := reflect.ValueOf(o).Elem().FieldByIndex(path)
+						if f.Type().Elem().Kind() == reflect.Uint8 {
+							f.SetBytes(buf[:l])
+						} else {
+							f.Set(reflect.ValueOf([][]byte{buf[:l], buf[128 : 128+l]}))
+						}
+						regions := snapshot(map[string]any{"options": o})
+						regions = append(regions, region{path: "buffer-behind-" + names[pi], full: buf, snap: append([]byte(nil), buf...), n: l})
+						param := fmt.Sprintf("%s/len=%d/%s", names[pi], l, content)
+						pv, _ := mon.Guard(func() { _ = validate.TdxQuote(m, o); _ = validate.RawTdxQuote(raw, o) })
+						prob := changed(regions)
+						if prob == "" && pv != "" {
+							prob = "" // (a crash is C08's / C10's finding)
+						}
+						if prob != "" {
+							x.Violation("no-write/any-option-byte-string", param, "validation wrote to "+prob, "none", param)
+						}
+						x.Note("no-write/any-option-byte-string", param, true, false, prob == "")
+						n++
+					}
+				}
+			}
+			x.Require("no-write/any-option-byte-string", 300, 0, 300)
+			x.Extra["option_byte_string_members_found_by_reflection"] = names
+		}
+	}
 	x.Require("no-write/parsed", 20, 5, 60)
 	x.Require("no-write/built-with-spare", 20, 5, 60)
 	x.Require("no-write/odd-sized-options", 0, 0, 400)
